@@ -200,6 +200,23 @@ SC_SPECIAL = [0, 1, 2, 8, L - 1, L, L + 1, (1 << 252), (1 << 252) - 1, (1 << 253
               int('09' + '99' * 31, 16), int('78' + 'f8' * 31, 16)]
 
 
+WORDS64 = [0x7777777777777777, 0x7777777777777778, 0x8888888888888888, 0x8888888888888887, 0x7777777777777776, 0xffffffffffffffff, 0, 1,
+           0x8000000000000000, 0x7fffffffffffffff, 0xf777777777777777, 0x77777777ffffffff, 0x8777777777777777, 0x7777777777777787]
+
+
+def word_pattern_scalars(rng, count):
+    out = []
+    for i in range(count):
+        ws = [rng.choice(WORDS64) if rng.below(5) else (rng.choice(WORDS64[:5]) if rng.below(2) else rng.below(1 << 64)) for _ in range(4)]
+        if i % 3 == 0:      # a carry-producing word directly below a word of sevens
+            j = rng.below(3)
+            ws[j + 1] = 0x7777777777777777
+            ws[j] = rng.choice([0xf777777777777777, 0x8888888888888888, 0xffffffffffffffff, (rng.below(1 << 60)) | (0x8 << 60)])
+        v = sum(w << (64 * k) for k, w in enumerate(ws))
+        out.append(v & M255)
+    return out
+
+
 def gen(tier, seed):
     rng = Rng('C15', seed)
     thorough = tier == 'thorough'
@@ -327,6 +344,10 @@ def gen(tier, seed):
         yield 'ge_base %s #base-special' % le32(s)
     for _ in range(300 if thorough else 60):
         yield 'ge_base %s #base-random' % le32(int.from_bytes(rng.bytes(32), 'little') & M255)
+    # scalars made of 64-bit / 32-bit words whose nibbles all sit on the recoding boundary (7 / 8), all-ones, zero: a word-at-a-time
+    # signed-digit recoding has its carries exactly between such words
+    for v in word_pattern_scalars(rng, 400 if thorough else 120):
+        yield 'ge_base %s #base-word-pattern' % le32(v)
     # ---- tables through the hook
     for pos in range(32):
         for idx in range(8):
@@ -621,6 +642,6 @@ def san_subset(lines):
             out.append(l)
         elif c in ('table', 'select') and rng.below(40) == 0:
             out.append(l)
-        elif c.startswith(('base-special', 'dsm-special', 'chain', 'decode', 'prog')) and rng.below(60) == 0:
+        elif c.startswith(('base-special', 'base-word', 'dsm-special', 'chain', 'decode', 'prog')) and rng.below(60) == 0:
             out.append(l)
     return out[:120]
